@@ -1,6 +1,6 @@
 (* The worker of Model/Batch.v (M7) is fprints_dict_from_mol of Model/Pipeline.v (M6) with the conformer loop abstracted. *)
 From E3FP Require Import Base.Prelude Model.Fprint Model.Pipeline Model.Batch.
-From E3FP Require Import Proofs.Pipeline Proofs.PipelineFs Proofs.Batch Proofs.BatchRun.
+From E3FP Require Import Proofs.PipelineNames Proofs.Pipeline Proofs.PipelineFs Proofs.PipelineSpec Proofs.Batch Proofs.BatchRun.
 Open Scope Z_scope.
 
 Section Tie.
@@ -11,19 +11,31 @@ Section Tie.
   Variable content : Type.
   Variable pickle : list fp -> content.
 
-  Lemma save_dict_plan fs files level ai d :
-    save_dict content pickle fs files level ai d
+  Lemma combine_fst_incl {A B} (l : list A) (r : list B) x : In x (map fst (combine l r)) -> In x l.
+  Proof.
+    revert r. induction l as [|a t IH]; intros [|b r]; simpl; try tauto. intros [H|H]; [auto|right; eapply IH; eauto].
+  Qed.
+
+  Lemma combine_fst_nodup {A B} (l : list A) (r : list B) : NoDup l -> NoDup (map fst (combine l r)).
+  Proof.
+    revert r. induction l as [|a t IH]; intros [|b r] H; simpl; try constructor.
+    - inversion H; subst. intro Q. apply H2. eapply combine_fst_incl; eauto.
+    - inversion H; subst. auto.
+  Qed.
+
+  (* the save block of M6 (exists test on the running state) performs the writes M7 attributes to the worker *)
+  Lemma save_dict_plan fs files level ai ow d :
+    NoDup files ->
+    save_dict content pickle fs files level ai ow d
     = match save_plan content pickle files level ai d with
-      | Ok ws => Ok (fs_writes fs ws)
+      | Ok ws => Ok (fs_writes fs (if single_level level ai then ws else filter (fs_keep ow fs) ws))
       | Raises e => Raises e
       end.
   Proof.
-    unfold save_dict, save_plan. destruct (single_level level ai).
+    intro Hnd. unfold save_dict, save_plan. destruct (single_level level ai).
     - destruct (dict_max_key d) as [mk|]; [|reflexivity]. destruct files as [|f0 rest]; [reflexivity|].
       destruct (dict_get d mk); reflexivity.
-    - f_equal. unfold fs_writes. generalize (combine files (zrange (level + 1))). intro l. revert fs.
-      induction l as [|[f i] t IH]; intro fs; simpl; [reflexivity|].
-      destruct (dict_get d i); simpl; apply IH.
+    - f_equal. rewrite (fold_save_filter content pickle d ow) by (apply combine_fst_nodup; exact Hnd). reflexivity.
   Qed.
 
   (* the abstraction of a molecule and its arguments as a batch input *)
@@ -44,6 +56,7 @@ Section Tie.
   Lemma worker_is_dict_from_mol fs (m : mol conformer) (a : fargs opts) :
     fp_init (a_opts a) (normal_bits (a_bits a)) (normal_level (a_level a)) = Ok tt ->
     (a_save a = true -> a_out_dir_base a <> None) ->
+    level_ok (cfg_of a) ->
     let out := fprints_dict_from_mol conformer opts fprint fp_init content pickle fs m a in
     let r := mol_step content pickle (cfg_of a) fs (effective_name conformer m) (loop_of m a) in
     o_fs out = snd r /\
@@ -52,17 +65,18 @@ Section Tie.
     | WFalse => exists e, o_val out = Raises e
     end.
   Proof.
-    intros Hi Hb. cbv zeta. unfold fprints_dict_from_mol, mol_step, cfg_of, loop_of, mol_files.
+    intros Hi Hb Hlv. cbv zeta. unfold fprints_dict_from_mol, mol_step, cfg_of, loop_of, mol_files.
     cbn [c_base c_level c_all_iters c_ext c_overwrite].
     rewrite Hi. destruct (a_save a) eqn:Es.
     - destruct (a_out_dir_base a) as [b|] eqn:Eb; [|exfalso; apply Hb; reflexivity].
       destruct (effective_name conformer m) as [nm|]; [|simpl; split; [reflexivity|eauto]].
-      destruct (filenames (Some b) (normal_level (a_level a)) (a_all_iters a) nm (a_out_ext a)) as [files|e]; [|simpl; eauto].
+      destruct (filenames (Some b) (normal_level (a_level a)) (a_all_iters a) nm (a_out_ext a)) as [files|e] eqn:Ef; [|simpl; eauto].
+      assert (Hnd : NoDup files) by (exact (filenames_nodup _ _ _ _ _ _ Hlv Ef)).
       destruct (forallb (fs_isfile fs) files && negb (a_overwrite a)); [simpl; auto|].
       destruct (mconfs m) as [|c0 t]; [simpl; auto|].
       match goal with |- context [conf_loop ?A ?B ?C ?D ?E ?F ?G ?H ?I ?J ?K ?L] =>
         destruct (conf_loop A B C D E F G H I J K L) as [[d j]|e] end; [|simpl; auto].
-      rewrite save_dict_plan.
+      rewrite (save_dict_plan _ _ _ _ _ _ Hnd).
       destruct (save_plan content pickle files (normal_level (a_level a)) (a_all_iters a) d); simpl; eauto.
     - destruct (mconfs m) as [|c0 t]; [simpl; auto|].
       match goal with |- context [conf_loop ?A ?B ?C ?D ?E ?F ?G ?H ?I ?J ?K ?L] =>
